@@ -47,14 +47,18 @@ package workerapi
 //@   ensures [C04:a_single_lease_request_names_exactly_that_lease] result2 == nil && !result1 ==> result0[0] == trim(leaseID) && result0[0] != ""
 //@   ensures [C04:a_batch_names_exactly_the_distinct_non_empty_lease_ids_sent] result2 == nil && result1 ==> len(result0) >= 1 && (forall j int :: 0 <= j && j < len(result0) ==> result0[j] != "" && exists i int :: 0 <= i && i < len(leaseIDs) && trim(leaseIDs[i]) == result0[j]) && (forall j int, k int :: 0 <= j && j < k && k < len(result0) ==> result0[j] != result0[k]) && (forall i int :: 0 <= i && i < len(leaseIDs) && trim(leaseIDs[i]) != "" ==> exists j int :: 0 <= j && j < len(result0) && result0[j] == trim(leaseIDs[i]))
 
+// the delay / ttl / wait a worker asks for reaches the pull layer as the proto duration's saturating conversion
 //@ func durationFromProto
-//@   trusted
+//@   ensures [C05:a_requested_duration_is_the_protos_saturating_conversion] (d == nil ==> !result1 && result2 == nil && result0 == 0) && (d != nil && result2 == nil ==> result1 && result0 == ext("google.golang.org/protobuf/types/known/durationpb.(*Duration).AsDuration", d))
 
+// a conflict reported by the pull layer reaches the worker as a conflict for the same lease with the same expiry flag
 //@ func mapConflicts
-//@   trusted
+//@   loop 1 invariant [one_conflict_out_per_conflict_in] rangeindex < len(conflicts) && len(out) == rangeindex + 1 && (len(out) > 0 ==> allocated(out.arr)) && forall k int :: 0 <= k && k < len(out) ==> out[k] != nil && allocated(out[k]) && out[k].LeaseId == conflicts[k].LeaseID && out[k].Expired == conflicts[k].Expired
+//@   ensures [C04:every_conflict_is_reported_for_its_own_lease] len(result) == len(conflicts) && forall k int :: 0 <= k && k < len(result) ==> result[k] != nil && result[k].LeaseId == conflicts[k].LeaseID && result[k].Expired == conflicts[k].Expired
 
 //@ func (*Server).leaseBatchLimit
-//@   trusted
+//@   requires s != nil
+//@   ensures [C04:the_batch_cap_is_the_configured_one_else_the_pull_layers_else_100] result > 0 && (s.MaxLeaseBatch > 0 ==> result == s.MaxLeaseBatch) && (s.MaxLeaseBatch <= 0 && s.Pull != nil && s.Pull.MaxLeaseBatch > 0 ==> result == s.Pull.MaxLeaseBatch) && (s.MaxLeaseBatch <= 0 && (s.Pull == nil || s.Pull.MaxLeaseBatch <= 0) ==> result == 100)
 
 // grpc status.Error returns a non-nil error for every code other than OK (assumed, google.golang.org/grpc/status)
 //@ spec
